@@ -16,14 +16,14 @@ Proof. intros sch m. destruct sch, m; repeat split; reflexivity. Qed.
 
 (** the offset really reaches the emitted operand of a plain (8-bit, low byte) access to a char:
     "v+off" with off = requested offset + port offset *)
-Theorem C17_char_access_offset : forall sch m name (c sg : bool) sz off,
-  asm_sel sch m (EAbsolute (mkVar name VChar c sg MSuperchip sz) true off) false
+Theorem C17_char_access_offset : forall sch m name (c sg : bool) sz ad off,
+  asm_sel sch m (EAbsolute (mkVar name VChar c sg MSuperchip sz ad) true off) false
   = AEmit m sg (mkE (PMem name (off + (if is_st m then 0 else 128)) IxNone false) 3%N (base_cyc m + 2)%N None).
 Proof. intros. unfold asm_sel. cbn. destruct m; reflexivity. Qed.
 
 (** indexed accesses to a superchip array *)
-Theorem C17_indexed_offset : forall sch m name (sg : bool) sz,
-  match asm_sel sch m (EAbsoluteX (mkVar name VCharPtr true sg MSuperchip sz)) false with
+Theorem C17_indexed_offset : forall sch m name (sg : bool) sz ad,
+  match asm_sel sch m (EAbsoluteX (mkVar name VCharPtr true sg MSuperchip sz ad)) false with
   | AEmit _ _ e => e_op e = PMem name (if is_st m then 0 else 128) IxX false
   | ANoEmit _ => False
   | AErr _ => True
